@@ -16,9 +16,10 @@ from . import common
 from . import c02
 from . import c02_tree as T
 from . import c08_hist as H
+from . import c08_ns as NS
 
 PROPERTY = 'C08'
-LEAN_TARGETS = ['CpProofs.C08', 'CpProofs.C08Hist', 'drv_c08']
+LEAN_TARGETS = ['CpProofs.C08', 'CpProofs.C08Hist', 'CpProofs.C08Ns', 'drv_c08']
 DRIVER = 'drv_c08'
 THEOREMS = [
     'CpProofs.C08.get_append',
@@ -41,6 +42,26 @@ THEOREMS = [
     'CpProofs.C08.alias_breaks_independence',
     'CpProofs.C08.C08_merge_section',
     'CpProofs.C08.C08_handler_tool_args',
+    'CpProofs.C08.C08_ns_delivers',
+    'CpProofs.C08.C08_ns_only_registered',
+    'CpProofs.C08.C08_ns_routing',
+    'CpProofs.C08.C08_ns_context_manager',
+    'CpProofs.C08.C08_ns_toolbox',
+    'CpProofs.C08.C08_ns_propagate_stops',
+    'CpProofs.C08.C08_ns_swallow_continues',
+    'CpProofs.C08.C08_request_ns_order',
+    'CpProofs.C08.C08_config_ns_served',
+    'CpProofs.C08.C08_config_ns_not_request',
+    'CpProofs.C08.C08_app_ns',
+    'CpProofs.C08.C08_request_ns_body',
+    'CpProofs.C08.C08_request_ns_attr',
+    'CpProofs.C08.C08_response_ns_header',
+    'CpProofs.C08.C08_response_ns_attr',
+    'CpProofs.C08.C08_hooks_ns',
+    'CpProofs.C08.C08_hooks_ns_live',
+    'CpProofs.C08.C08_error_page_ns',
+    'CpProofs.C08.C08_engine_ns_plugin',
+    'CpProofs.C08.C08_server_ns',
 ]
 LEVEL = 'proof'
 TECHNIQUE = ('Lean 4 proof: set_conf over the object trail refined to a level-by-level declarative merge (induction over the '
@@ -80,7 +101,8 @@ RULE = ('random dispatcher-free (and some popargs/custom-dispatch) object trees 
 PLAIN_KEYS = ['k1', 'k2', 'ns.k3', 'Ns.K4']
 TOOL_KEYS = ['tools.p1.on', 'tools.p1.x', 'tools.p2.on', 'tools.p2.y', 'tools.p2.priority', 'tools.p1.z.w']
 RARE_KEYS = ['tools.staticdir.dir']
-NS_KEYS = ['request.c08attr', 'response.headers.X-C08']      # consumed by the request / response namespaces
+HOOK_KEY = 'hooks.on_start_resource.c08'                          # a bare hook attached by the hooks namespace
+NS_KEYS = ['request.c08attr', 'response.headers.X-C08', HOOK_KEY]   # consumed by the request / response / hooks namespaces
 ALL_TOOL_KEYS = ['tools.%s.%s' % (t, a) for t in ('p1', 'p2') for a in ('on', 'x', 'y', 'priority', 'z.w')]
 GEN_KEYS = PLAIN_KEYS + ALL_TOOL_KEYS + RARE_KEYS + NS_KEYS + ['tools.staticdir.section']
 PROBE_TOOLS = ['p1', 'p2']
@@ -123,12 +145,39 @@ def probe_copy_sites():
     return merged, setconf
 
 
+def _lean_str(x):
+    return '"' + ''.join(c if (32 <= ord(c) < 127 and c not in '"\\') else '\\u{%x}' % ord(c) for c in x) + '"'
+
+
+def _lean_val(v):
+    if v is None:
+        return '.none'
+    if v is True:
+        return '.bool true'
+    if v is False:
+        return '.bool false'
+    if isinstance(v, int):
+        return '.int (%d)' % v
+    if isinstance(v, str):
+        return '.str %s.toList' % _lean_str(v)
+    raise common.HarnessError('environment value outside the modelled kinds: %r' % (v,))
+
+
 def tables(ctx):
+    import cherrypy
     from cherrypy.lib import reprconf
+    from cherrypy import _cprequest, _cpconfig
     names = sorted(n[6:] for n in dir(reprconf._Builder) if n.startswith('build_'))
+    merged, setconf = probe_copy_sites()
+    try:
+        app_ns = list(cherrypy.Application(None).namespaces)
+    except Exception:
+        app_ns = []
+
+    def strs(l):
+        return ', '.join(_lean_str(n) for n in l)
     src = '''/-
-  GENERATED by harness/c08.py `tables()` from the live class `cherrypy.lib.reprconf._Builder`
-  (the AST node classes it has a `build_<Class>` method for).  Do not edit by hand.
+  GENERATED by harness/c08.py `tables()` from the live modules.  Do not edit by hand.
 -/
 namespace CpModel.Gen.C08
 
@@ -142,10 +191,42 @@ def mergedArgsCopies : Bool := %s
 /-- does `set_conf()` build `request.config` from a copy of `cherrypy.config`?  Measured by one request. -/
 def setConfCopies : Bool := %s
 
+/-- `list(_cprequest.Request.namespaces)`: the namespaces a request serves, in serving order -/
+def requestNamespaces : List String := [%s]
+
+/-- `list(cherrypy.config.namespaces)` -/
+def configNamespaces : List String := [%s]
+
+/-- `list(cherrypy.Application(None).namespaces)` -/
+def appNamespaces : List String := [%s]
+
+/-- `_cprequest.hookpoints` -/
+def hookPoints : List String := [%s]
+
 end CpModel.Gen.C08
-''' % ((', '.join('"%s"' % n for n in names),) + tuple('true' if b else 'false' for b in probe_copy_sites()))
+''' % (strs(names), 'true' if merged else 'false', 'true' if setconf else 'false',
+       strs(list(_cprequest.Request.namespaces)), strs(list(cherrypy.config.namespaces)), strs(app_ns),
+       strs(list(_cprequest.hookpoints)))
+    envs = []
+    for name, env in _cpconfig.environments.items():
+        envs.append('  (%s.toList, [%s])' % (_lean_str(name), ', '.join('(%s.toList, %s)' % (_lean_str(k), _lean_val(v))
+                                                                       for k, v in env.items())))
+    env_src = '''import CpModel.Dispatch
+/-
+  GENERATED by harness/c08.py `tables()` from the live `cherrypy._cpconfig.environments`.  Do not edit by hand.
+-/
+namespace CpModel.Gen.C08
+open CpModel.Dispatch
+
+/-- `Config.environments`: environment name -> the entries it stands for -/
+def environments : List (List Char × Conf) := [
+%s]
+
+end CpModel.Gen.C08
+''' % ',\n'.join(envs)
     out = dict(c02.tables(ctx))
     out['CpModel/Gen/C08Tables.lean'] = src
+    out['CpModel/Gen/C08Env.lean'] = env_src
     return out
 
 
@@ -159,7 +240,7 @@ def gen_conf(rng, prov, p=0.3, rare=0.03):
             c[k] = prov
     for k in NS_KEYS:
         if rng.random() < p * 0.6:
-            c[k] = prov
+            c[k] = NS.HOOK_PATH if k == HOOK_KEY else prov
     for k in TOOL_KEYS:
         if rng.random() < p * 0.8:
             if k.endswith('.on'):
@@ -260,7 +341,9 @@ def run_config_case(case):
         obs = []
         for p, m in case['reqs']:
             TOOL_JOURNAL[:] = []
+            NS.HOOK_JOURNAL[:] = []
             o = runner.get(p, m)
+            o['hook_ran'] = len(NS.HOOK_JOURNAL)
             req = runner.requests[0] if runner.requests else None
             cfg = getattr(req, 'config', None) if req is not None else None
             o['config'] = None if cfg is None else {k: cfg[k] for k in GEN_KEYS if k in cfg}
@@ -398,6 +481,12 @@ def oracle_config(built, case, o, req):
         if want_h != got_h and want_h != o['x_header']:
             bad.append(('response header X-C08 is %r although the effective config says %r'
                         % (o['x_header'], want_h), 'response_namespace'))
+    # a bare hook from the hooks namespace runs exactly when the effective config holds the entry
+    if o['status'] != 500 or o['ran']:
+        want_hook = 1 if HOOK_KEY in o['config'] else 0
+        if o.get('hook_ran', want_hook) != want_hook:
+            bad.append(('the bare hook ran %d time(s) although the effective config %s the entry %s'
+                        % (o['hook_ran'], 'holds' if want_hook else 'does not hold', HOOK_KEY), 'hooks_namespace'))
     # tools: run exactly when the effective config turns them on, with the merged arguments
     if o['status'] != 500 or o['ran']:
         want = []
@@ -442,7 +531,7 @@ def shrink_config_case(case, sig):
 
     def fails(c):
         return bool(messages(c))
-    small = c02.shrink_generic(dict(case, reqs=case['reqs'][:1]), variants, fails)
+    small = H.shrink_generic(dict(case, reqs=case['reqs'][:1]), variants, fails)
     try:
         g = dict(small, tree=c02.gc_tree(small['tree']))
         if fails(g):
@@ -508,6 +597,9 @@ def model_config_obs(line):
 def check_config_cases(ctx, cases, compare_model=True):
     pending = []
     for case in cases:
+        if len(ctx.oracle_failures) >= 150:
+            ctx.note('config cases stopped after %d oracle failures' % len(ctx.oracle_failures))
+            break
         built, runner, obs = run_config_case(case)
         reqs = case['reqs']
         for node, name, conf, f in built.config_by_decorator:
@@ -538,7 +630,7 @@ def check_config_cases(ctx, cases, compare_model=True):
             ctx.count('conf:keys_effective:%d' % min(on_path, 6))
             ctx.count('conf:tools_ran:%d' % len(o['tools_ran']))
             for what, sig in oracle_config(built, case, o, None):
-                c02.report_failure(ctx, single, what, sig, shrink_config_case)
+                H.report_failure(ctx, single, what, sig, shrink_config_case)
             pi = o['path_info'] if o['path_info'] is not None else p
             line = ' '.join(['conf', case['kind'], T.enc_text(m.upper()), root, na, nodes, secs, glob, T.enc_text(pi)])
             pending.append((single, o, line))
@@ -549,7 +641,10 @@ def check_config_cases(ctx, cases, compare_model=True):
         return
     for (single, o, line), mline in zip(pending, out):
         ctx.compared()
-        if 'unknownDispatch' in mline or 'outOfFuel' in mline:
+        if 'unknownDispatch' in mline:
+            ctx.count('conf:model_unknown_dispatcher')      # a dispatcher form outside the model: not comparable
+            continue
+        if 'outOfFuel' in mline:
             raise common.HarnessError('model artefact %s' % mline)
         mo = model_config_obs(mline)
         if 'error' in mo:
@@ -1125,6 +1220,12 @@ def check_any(ctx, cases, compare_model=True):
         c['reqs'] = [tuple(r) for r in c['reqs']]
     fc = [c for c in cases if 'fc' in c]
     lit = [c for c in cases if 'lit' in c]
+    ns = [c for c in cases if 'ns' in c]
+    if ns:
+        NS.check_ns_cases(ctx, ns, compare_model)
+    eff = [c for c in cases if 'nseff' in c]
+    if eff:
+        NS.check_eff_cases(ctx, eff, compare_model)
     if conf:
         check_config_cases(ctx, conf, compare_model)
     if fc:
@@ -1151,6 +1252,8 @@ def _worker(args):
     sub.lean = _WORKER_LEAN[0]
     check_config_cases(sub, [gen_config_case(sub.rng, i) for i in range(n)])
     H.check_hist_cases(sub, [H.gen_hist_case(sub.rng, i) for i in range(n // 2)])
+    NS.check_ns_cases(sub, [NS.gen_ns_case(sub.rng) for _ in range(n * 2)])
+    NS.check_eff_cases(sub, [NS.gen_eff_case(sub.rng) for _ in range(n)])
     check_fc_cases(sub, [gen_fc_case(sub.rng) for _ in range(n * 4)])
     check_literal_cases(sub, gen_literal_cases(sub.rng, n * 4))
     return _export(sub)
@@ -1206,6 +1309,8 @@ def run(ctx):
     if ctx.quick():
         check_config_cases(ctx, [gen_config_case(ctx.rng, i) for i in range(800)])
         H.check_hist_cases(ctx, [H.gen_hist_case(ctx.rng, i) for i in range(300)])
+        NS.check_ns_cases(ctx, [NS.gen_ns_case(ctx.rng) for _ in range(2000)])
+        NS.check_eff_cases(ctx, [NS.gen_eff_case(ctx.rng) for _ in range(1200)])
         check_fc_cases(ctx, [gen_fc_case(ctx.rng) for _ in range(3000)])
         check_literal_cases(ctx, gen_literal_cases(ctx.rng, 2500))
         return
@@ -1231,6 +1336,8 @@ def search(ctx, around=None):
             return
     check_config_cases(ctx, [gen_config_case(ctx.rng, 7 * i) for i in range(800)], compare_model=False)
     H.check_hist_cases(ctx, [H.gen_hist_case(ctx.rng, i) for i in range(600)], compare_model=False)
+    NS.check_ns_cases(ctx, [NS.gen_ns_case(ctx.rng) for _ in range(3000)], compare_model=False)
+    NS.check_eff_cases(ctx, [NS.gen_eff_case(ctx.rng) for _ in range(2000)], compare_model=False)
     check_fc_cases(ctx, [gen_fc_case(ctx.rng) for _ in range(5000)], compare_model=False)
     check_literal_cases(ctx, gen_literal_cases(ctx.rng, 5000), compare_model=False)
 
@@ -1249,6 +1356,8 @@ def replay(ctx, case):
             print('oracle :', oracle_config(built, case, o, None) or 'holds')
     elif 'fc' in case:
         print('find_config case:', json.dumps(case['fc']))
-    else:
+    elif 'lit' in case:
         print('literal:', case['lit'])
+    else:
+        print('case:', json.dumps(case, default=repr))
     check_any(ctx, [case])
